@@ -65,6 +65,18 @@ template <class F> static std::string guarded(F&& f) {
 static void begin(const char* what, long t, long n) { ev::Ev("begin").s("what", what).i("t", t).i("n", n).emit(); std::fflush(ev::out()); }
 
 // ---- gf ------------------------------------------------------------------------------------
+// gf_div is an internal helper of Shamir.cpp: a refactoring may drop it (division can be done on logs directly).
+// When it is gone the quotient is derived from the real gf_mul (the c with c*b = a), so the field check goes on.
+template <class T, class E, class L>
+static long long real_div(T a, T b, const E& exp, const L& log) {
+    if constexpr (requires { gf_div(a, b, exp, log); }) {
+        return gf_div(a, b, exp, log);
+    } else {
+        if (b == 0) throw std::invalid_argument("division by zero");
+        for (int c = 0; c < 256; ++c) if (gf_mul(static_cast<std::uint8_t>(c), b, exp, log) == a) return c;
+        return -1;
+    }
+}
 static void do_gf() {
     const auto exp = build_exp_table();
     const auto log = build_log_table(exp);
@@ -72,9 +84,9 @@ static void do_gf() {
         std::vector<long long> mul, div;
         for (int b = 0; b < 256; ++b) mul.push_back(gf_mul(static_cast<std::uint8_t>(a), static_cast<std::uint8_t>(b), exp, log));
         div.push_back(-1);
-        for (int b = 1; b < 256; ++b) div.push_back(gf_div(static_cast<std::uint8_t>(a), static_cast<std::uint8_t>(b), exp, log));
+        for (int b = 1; b < 256; ++b) div.push_back(real_div(static_cast<std::uint8_t>(a), static_cast<std::uint8_t>(b), exp, log));
         long long out = -1;
-        std::string d0 = guarded([&] { out = gf_div(static_cast<std::uint8_t>(a), 0, exp, log); });
+        std::string d0 = guarded([&] { out = real_div(static_cast<std::uint8_t>(a), static_cast<std::uint8_t>(0), exp, log); });
         ev::Ev("gfrow").i("a", a).ints("mul", mul).ints("div", div).s("div0", d0 == "ok" ? "value" : d0).i("add", gf_add(static_cast<std::uint8_t>(a), 0x5a)).emit();
     }
 }
